@@ -444,7 +444,7 @@ func (c *vfConn) WriteTo(p []byte, addr net.Addr) (int, error) {
 			}
 		}
 	}
-	c.sw.emit(c, canonicalAddrPort(dstAP), p, false)
+	c.sw.emit(c, vfRefCanonAP(dstAP), p, false)
 
 	return len(p), nil
 }
